@@ -29,7 +29,8 @@ TrNext ==
   /\ LET e == Tr[l]
          tab == IF e.plain THEN <<>> ELSE seen          \* a new base URL starts a new table
          bad == Failing(e, tab)
-         new == {p \in Pairs(e) : p[1] \notin DOMAIN tab}
+         \* (an input that matches the trigger of a recorded finding never becomes the reference of its collision class)
+         new == IF Triggers(e) # {} THEN {} ELSE {p \in Pairs(e) : p[1] \notin DOMAIN tab}
      IN /\ seen' = [k \in (DOMAIN tab) \cup {p[1] : p \in new} |-> IF k \in DOMAIN tab THEN tab[k] ELSE (CHOOSE p \in new : p[1] = k)[2]]
         /\ out0' = <<>> /\ v' = e.x /\ depth' = e.b
         /\ (IF bad = {} THEN TRUE ELSE PrintT(<<"VERDICT", e.id, bad, Triggers(e)>>))
